@@ -2,7 +2,8 @@
 //
 // Bounded exhaustive enumeration of arrangements of 2–4 coloured boxes × per-box deviations
 // (position, float, display, z-index, opacity, transform, overflow, border+outline, table cell),
-// preceded by two small families: many tied siblings of one context, and nested dispatch (one kind
+// preceded by three small families: many tied siblings of one context, boxes fragmented over a page
+// break (paged.go: the continuation of an earlier box and the later boxes of its layer), and nested dispatch (one kind
 // per branch of the dispatch closure of stacking.go on the arrangements with two and more levels of
 // nesting: positioned boxes inside nested fake contexts with earlier items in the real context).
 // Every document is rendered by the real pipeline onto the recording backend; the sequence of
@@ -12,6 +13,7 @@ package c16
 
 import (
 	"fmt"
+	"os"
 	"sort"
 	"strings"
 
@@ -21,7 +23,8 @@ import (
 )
 
 type sub struct {
-	many   []manyCase // the many-siblings family (shapes and lists unused)
+	many   []manyCase  // the many-siblings family (shapes and lists unused)
+	paged  []pagedCase // the paged family (shapes and lists unused)
 	name   string
 	shapes [][]int  // parent vectors (pre-order forests under body)
 	lists  [][]kind // menu of kinds per box
@@ -194,6 +197,9 @@ func (c *check) build(tier string) {
 	// (1) many-siblings family: ties among ≥ 13 child contexts of one sign in one context
 	ms := manyCases()
 	c.subs = append(c.subs, &sub{name: "many siblings: n ∈ {13,14,16,20,33} positioned siblings of one stacking context × z-index patterns with ties × {absolute, relative} × {children of the root context, children of a positioned z-index:0 box}", many: ms, size: int64(len(ms))})
+	// (1b) paged family: boxes fragmented over a page break; the continuation of an earlier box and later boxes
+	pgs := pagedCases()
+	c.subs = append(c.subs, &sub{name: "paged: body > A B <forced page break> C on 100px pages, A and/or B with 130px of breakable content (split over the page break) × 10 kinds per box", paged: pgs, size: int64(len(pgs))})
 	// (2) nested-dispatch family: the kinds that take one branch each of the dispatch closure, on every
 	// arrangement of 3 boxes and on every arrangement of 4 boxes with two or three levels of nesting: a
 	// positioned / context-forming box inside one or two nested fake contexts (positioned z-index:auto, float,
@@ -218,6 +224,20 @@ func (c *check) build(tier string) {
 	} else {
 		add("3 boxes, 16 core kinds", shapes(3, 2), rep(kindsOf(core16...), 3))
 		add("4 boxes, 8 kinds, one level of nesting", shapes(4, 1), rep(kindsOf(small8...), 4))
+	}
+	// development aid: VERIF_C16_SUBS=paged,many restricts the run to the sub-spaces whose name starts with
+	// one of the given words (reported in the bounds)
+	if only := os.Getenv("VERIF_C16_SUBS"); only != "" {
+		var keep []*sub
+		for _, s := range c.subs {
+			for _, w := range strings.Split(only, ",") {
+				if strings.HasPrefix(s.name, w) {
+					keep = append(keep, s)
+					break
+				}
+			}
+		}
+		c.subs = keep
 	}
 	c.units = 0
 	for _, s := range c.subs {
@@ -254,16 +274,21 @@ func (c *check) Init(tier string, seed int64) engine.Space {
 			bs = append(bs, map[string]any{"name": s.name, "sibling_counts": manyN, "z_patterns": pats, "cases": s.size})
 			continue
 		}
+		if s.paged != nil {
+			bs = append(bs, map[string]any{"name": s.name, "kinds_per_box": paged10, "tall_boxes": []string{"A", "B", "A and B"}, "cases": s.size})
+			continue
+		}
 		bs = append(bs, map[string]any{"name": s.name, "shapes": sh, "kinds_per_box": menus, "cases": s.size})
 	}
 	return engine.Space{
 		Units: c.units, Chunk: 48, Level: "model_checking", CaseCPUs: 8,
-		Rule: "sub-spaces in the listed order, the small families first (a run cut by its deadline loses the tail of the order): (family many-siblings: every listed sibling count × z-index pattern × positioning × nesting; expected order = stable sort by z-index, tree order among ties) + (family nested dispatch: one kind per branch of the dispatch closure of NewStackingContextFromBox on every arrangement of 3 boxes and every arrangement of 4 (thorough: 5) boxes with ≥ 2 levels of nesting: positioned and context-forming boxes inside nested fake contexts, with earlier and later items of the same real stacking context, levels 0 (ties) and −1) + deviation-bounded product: every arrangement (pre-order forest of 2–4 boxes under body) × every assignment of a kind (set of ≤ 2 deviations from the menu) to every box, kinds listed simplest first; arrangements with an in-flow block-level child of a display:inline box are outside the alphabet and skipped (counted); a case is non-trivial when the Appendix E order differs from document order; transitions = edges of the deviation lattice (deviations present in the case)",
+		Rule: "sub-spaces in the listed order, the small families first (a run cut by its deadline loses the tail of the order): (family many-siblings: every listed sibling count × z-index pattern × positioning × nesting; expected order = stable sort by z-index, tree order among ties) + (family paged: three sibling boxes A B C of every kind of a 10-kind menu, a forced page break before C, A and/or B holding breakable content taller than the page: on every page the paint events present follow the Appendix E order of the whole document, so the continuation of an earlier box precedes the later boxes of its layer) + (family nested dispatch: one kind per branch of the dispatch closure of NewStackingContextFromBox on every arrangement of 3 boxes and every arrangement of 4 (thorough: 5) boxes with ≥ 2 levels of nesting: positioned and context-forming boxes inside nested fake contexts, with earlier and later items of the same real stacking context, levels 0 (ties) and −1) + deviation-bounded product: every arrangement (pre-order forest of 2–4 boxes under body) × every assignment of a kind (set of ≤ 2 deviations from the menu) to every box, kinds listed simplest first; arrangements with an in-flow block-level child of a display:inline box are outside the alphabet and skipped (counted); a case is non-trivial when the Appendix E order differs from document order; transitions = edges of the deviation lattice (deviations present in the case)",
 		Bounds: map[string]any{
-			"deviation_menu": devName[:], "deviation_css": devCSS[:], "sub_spaces": bs, "max_deviations_per_box": 2,
+			"restricted_to_sub_spaces(dev)": os.Getenv("VERIF_C16_SUBS"),
+			"deviation_menu":                devName[:], "deviation_css": devCSS[:], "sub_spaces": bs, "max_deviations_per_box": 2,
 		},
 		Assumptions: []string{
-			"one page, LTR, Ahem 10px; no explicit sizes and white-space:nowrap: no line is ever broken, so each inline box is one fragment (calibration: without nowrap an inline box holding an inline-block inside two nested shrink-to-fit absolute boxes is split over two lines and paints its background twice)",
+			"one page (except the paged family: two to four pages; which fragment of a box lies on which page is read from the pages, not predicted), LTR, Ahem 10px; no explicit sizes and white-space:nowrap: no line is ever broken, so each inline box is one fragment (calibration: without nowrap an inline box holding an inline-block inside two nested shrink-to-fit absolute boxes is split over two lines and paints its background twice)",
 			"the position (layer) of a box that is a stacking context only because of overflow:hidden and is not positioned is not asserted (implementation choice): only its atomicity and the order inside and outside it",
 			"outlines: only the per-box order (after the box's own background, border and text), their presence and their atomicity are asserted, not their position among other boxes (Appendix E allows step 10 or in place)",
 			"in-flow block-level children of display:inline boxes, block-in-inline splitting and inline boxes broken over lines are outside the alphabet",
@@ -280,8 +305,9 @@ type acase struct {
 	kinds   []kind
 	// many-siblings family only
 	many  *manyCase
-	zs    []*int   // declared z-index per box (nil = none)
-	extra []string // extra declarations per box
+	paged *pagedCase // paged family only
+	zs    []*int     // declared z-index per box (nil = none)
+	extra []string   // extra declarations per box
 }
 
 // ---- many-siblings family -----------------------------------------------------------------------
@@ -374,6 +400,9 @@ func (c *check) decode(u int64) acase {
 			i := u - s.start
 			if s.many != nil {
 				return s.many[i].acase(s)
+			}
+			if s.paged != nil {
+				return s.paged[i].acase(s)
 			}
 			cs := acase{sub: s}
 			cs.parents = s.shapes[i%int64(len(s.shapes))]
@@ -539,6 +568,10 @@ func (c *check) Run(u int64, ctx *engine.Ctx) {
 		}
 	}
 	cs := c.decode(u)
+	if cs.paged != nil {
+		runPaged(ctx, cs)
+		return
+	}
 	m := newModelZ(cs.parents, cs.kinds, cs.zs)
 	if why := m.outside(); why != "" {
 		ctx.Count("skipped:"+why, 1)
@@ -799,6 +832,9 @@ func (c *check) Describe(u int64) any {
 	m := newModelZ(cs.parents, cs.kinds, cs.zs)
 	if cs.many != nil {
 		return map[string]any{"sub_space": cs.sub.name, "case": cs.desc(), "html": cs.body(), "reference_order": evString(m.expected())}
+	}
+	if cs.paged != nil {
+		return map[string]any{"sub_space": cs.sub.name, "case": cs.paged.desc(), "html": cs.paged.body(), "reference_order": evString(m.expected())}
 	}
 	return map[string]any{"sub_space": cs.sub.name, "shape": shapeString(cs.parents), "kinds": ks, "html": cs.body(),
 		"outside_alphabet": m.outside(), "reference_order": evString(m.expected())}
